@@ -237,7 +237,12 @@ PROPS["C07"] = {
     "assumptions": DOCS_ASSUME,
     "models": [DOCS_Q, DOCS_T],
     "sensitivity": [{"base": "docs-quick", "flip": {"ImportNeverDowngrades": "FALSE"}}],
-    "drives": [docs_drive("C07")],
+    "drives": [docs_drive("C07"),
+               # the actor caches the capability of an open document: write attempts through the real actor thread
+               {"name": "actor-caps", "cmd": "actor", "args": {"n": {"quick": 120, "thorough": 3000}},
+                "trace_module": "ActorTrace",
+                "trace_consts": dict(ENTRY, OpenCounts="TRUE", SyncSticky="TRUE", GateSync="TRUE", GateOpen="TRUE", Prop='"C07"'),
+                "tv_timeout": 3000}],
 }
 PROPS["C15"] = {
     "level": "model_checking",
@@ -305,7 +310,7 @@ PROPS["C14"] = {
     "drives": [
         {"name": "actor", "cmd": "actor", "args": {"n": {"quick": 120, "thorough": 4000}},
          "trace_module": "ActorTrace",
-         "trace_consts": dict(ENTRY, OpenCounts="TRUE", SyncSticky="TRUE", GateSync="TRUE", GateOpen="TRUE"),
+         "trace_consts": dict(ENTRY, OpenCounts="TRUE", SyncSticky="TRUE", GateSync="TRUE", GateOpen="TRUE", Prop='"C14"'),
          "tv_timeout": 3000},
     ],
 }
@@ -367,8 +372,10 @@ def livesync_schedules(wdir, tier, seed, cov):
     import os
     out = os.path.join(wdir, "livesync-schedules.json")
     open(out, "w").close()
+    # (a) edge coverage: one schedule per transition of the 2-dial state graph = the discovery path of the source state
+    #     followed by the action, so that every (state, action) pair of the model is replayed on the real code
     c2 = dict(LIVE_CONSTS, MaxDials=2)
-    n1, r1 = _v.export_schedules("MCLiveSync", _v.cfg_text(consts=c2, invariants=["EmitSchedules"], view="view"), out,
+    n1, r1 = _v.export_schedules("MCLiveSync", _v.cfg_text(consts=c2, view="view", extra="ACTION_CONSTRAINT EmitEdges"), out,
                                  workers=1, tag="C11-sched")
     num = 1500 if tier == "quick" else 12000
     n2, r2 = _v.export_schedules("MCLiveSync", _v.cfg_text(consts=LIVE_CONSTS, invariants=["EmitSchedules"], view="view"), out,
@@ -379,8 +386,8 @@ def livesync_schedules(wdir, tier, seed, cov):
         c4 = dict(LIVE_CONSTS, MaxDials=4, DialReasons="<- AllReasons")
         n3, r3 = _v.export_schedules("MCLiveSync", _v.cfg_text(consts=c4, invariants=["EmitSchedules"], view="view"), out,
                                      simulate="num=6000", seed=seed, depth=120, workers=4, limit=20000, tag="C11-sched")
-    cov["schedules_from_tlc"] = {"bfs_maxdials2": n1, "simulated_maxdials3": n2, "simulated_maxdials4": n3}
-    _v.log(f"[C11] schedules exported from TLC: {n1} (exhaustive, MaxDials=2) + {n2} (simulation, MaxDials=3) + {n3} (MaxDials=4)")
+    cov["schedules_from_tlc"] = {"one_per_transition_maxdials2": n1, "simulated_maxdials3": n2, "simulated_maxdials4": n3}
+    _v.log(f"[C11] schedules exported from TLC: {n1} (one per transition, MaxDials=2) + {n2} (simulation, MaxDials=3) + {n3} (MaxDials=4)")
     return out
 
 
@@ -389,7 +396,7 @@ PROPS["C11"] = {
     "rule": "model: all interleavings of <= 3 dials (new neighbour, sync report, direct join, resync) between two nodes with "
             "request loss / delivery, accept or decline, lost or delivered abort replies, independent success or failure of the "
             "two session ends and independent handling of the two task results, document synced at both or at one node; "
-            "implementation: TLC-generated schedules (all quiescent behaviours for 2 dials, simulated ones for 3-4 dials) are "
+            "implementation: TLC-generated schedules (one per transition of the 2-dial state graph, simulated behaviours for 3-4 dials) are "
             "replayed on two real LiveActors; slot, resync flag, accept decision and started dials of both nodes are validated "
             "after every action and all invariants are evaluated on the validated trace",
     "assumptions": ["a started dial is captured instead of connecting (hook H6); task results are synthesised as "
